@@ -106,6 +106,83 @@ def spec_to_code(tier: str, seed: int) -> tuple[list[dict], int]:
     return outs, len(behs)
 
 
+# --------------------------------------------------------------------------------------------------
+# the PortProtocol layer above the state machine (spec/QosPort.tla): its decision table on the real code
+
+_MODE = {"on": False, "off": True, "auto": None}
+_REQ = {"T": True, "F": False, "N": None}
+
+
+def _port_scenarios() -> list[tuple[dict, dict]]:
+    """(row descriptor, scenario) for every row of QosPort (one call) and every Share pair (two calls, one object)."""
+    out = []
+    ok = [{"echo": 0.01, "reply": 0.05}]
+
+    def call(i, t, kind, wfr):
+        return {"id": i, "t": t, "kind": kind, "zone": i, "prio": 0, "mr": 0, "to": 5.0, "wfr": wfr, "tx": ok,
+                "outer": None, "hops": 0}
+
+    for m, mode in _MODE.items():
+        for r, wfr in _REQ.items():
+            for kind in ("RQ", "W", "I", "IMP", "LOG"):
+                for paused in (0, 1):
+                    sc = {"mode": mode, "callers": [call(1, 0.001, kind, wfr)],
+                          "events": [{"t": 0.0, "ev": "pause", "hops": 0}] if paused else []}
+                    out.append(({"mode": m, "req": r, "kind": kind, "kind2": "", "paused": paused, "share": 0}, sc))
+                for kind2 in ("RQ", "LOG", "W"):
+                    sc = {"mode": mode, "share_qos": True, "events": [],
+                          "callers": [call(1, 0.001, kind, wfr), call(2, 1.0, kind2, wfr)]}
+                    out.append(({"mode": m, "req": r, "kind": kind, "kind2": kind2, "paused": 0, "share": 1}, sc))
+    return out
+
+
+def _port_obs(item: dict, i: int) -> dict:
+    """What call i did, read off its recorded trace."""
+    ev = item["ev"]
+    writes = sum(1 for e in ev if e["e"] == "Write" and e["i"] == i)
+    t_call = next(e["t"] for e in ev if e["e"] == "Call" and e["i"] == i)
+    t_end = next((e["t"] for e in ev if e["e"] in ("Return", "Raise") and e["i"] == i), 1 << 30)
+    notices = sum(1 for e in ev if e["e"] == "Write" and e["k"] == "alert" and t_call <= e["t"] <= t_end)
+    out = "other:none"
+    for e in ev:
+        if e["i"] != i:
+            continue
+        if e["e"] == "Return":
+            out = e["k"]
+        elif e["e"] == "Raise":
+            out = ("refused" if writes == 0 else "error") if e["k"] == "protocol" else f"other:{e['s']}"
+    return {"out": out, "notices": notices, "writes": writes}
+
+
+def port_layer(chk: Check) -> tuple[dict, list[dict], list[dict]]:
+    """TLC on QosPort; every row and Share pair executed on the real PortProtocol; mismatches are drift.
+    Returns (coverage, scenarios, trace items) - the traces also go to the contract judge with the rest."""
+    r = tlc.run_tlc("MC_QosPort", "MC_QosPort.cfg", workers=2, timeout=300)
+    if not r.ok:
+        chk.model_drift(f"TLC: QosPort violates {r.violated or r.errors[:2]}")
+    rows = _port_scenarios()
+    items = run_scenarios([sc for _, sc in rows])
+    herr = [it["harness_error"] for it in items if "harness_error" in it]
+    if herr:
+        raise RuntimeError(f"{len(herr)} port-layer scenarios failed in the harness, e.g. {herr[0]}")
+    table = []
+    for (d, _sc), it in zip(rows, items):
+        calls = [_port_obs(it, 1)] + ([_port_obs(it, 2)] if d["share"] else [])
+        table.append(dict(d, calls=calls))
+    res = tlc.validate_batch("QosPortTrace", table, workers=2, timeout=600)
+    seen = set()
+    for idx, fail in res["rejects"]:
+        d = table[idx]
+        sig = (fail[1], d["mode"], d["req"], d["kind"], d["kind2"], d["paused"])
+        if sig in seen:
+            continue
+        seen.add(sig)
+        chk.model_drift(f"{fail[1]}: PortProtocol.send_cmd mode={d['mode']} wait_for_reply={d['req']} kind={d['kind']}"
+                        f"{'+' + d['kind2'] if d['share'] else ''} paused={d['paused']}: code {d['calls']} model expects {fail[2]}")
+    cov = {"model_states": r.distinct, "rows_executed": len(table), "rows_differing_from_model": len(res["rejects"])}
+    return cov, [sc for _, sc in rows], items
+
+
 def judge(items: list[dict], workers=None) -> dict:
     return tlc.validate_batch("QosTrace", items, workers=workers, chunk=3000, timeout=1800)
 
@@ -157,6 +234,10 @@ def run_check(pid: str, tier: str, replay: str | None) -> None:
     herr = [(i, it["harness_error"]) for i, it in enumerate(items) if "harness_error" in it]
     if herr:
         raise RuntimeError(f"{len(herr)} scenarios failed in the harness, e.g. {herr[0]}")
+    port_cov: dict = {}
+    if pid == "C07":    # the layer above the state machine (decision table of modes / pause / impersonation notice)
+        port_cov, pscs, pitems = port_layer(chk)
+        scs, items = scs + pscs, items + pitems
     n_nat = len(items)
     scs = scs + [{"director_replay": k} for k in range(len(dir_items))]
     items = items + dir_items
@@ -178,6 +259,7 @@ def run_check(pid: str, tier: str, replay: str | None) -> None:
     chk.finish(
         coverage={
             "states": mc["states"], "transitions": mc["transitions"], "model_check": mc,
+            "port_layer": port_cov,
             "spec_to_code": {"behaviours_replayed": nbeh, "boundaries_compared": compared, "behaviours_with_drift": ndrift},
             "traces_validated_against_impl": res["n"], "natural_scenarios": n_nat,
             "trace_validation_states": res["states"],
